@@ -1,9 +1,12 @@
 #!/bin/bash
 # seedtest.sh Cxx [check ids...] : confirm a seeded change (worktree /tmp/seed-Cxx, outputs /tmp/seed-out/Cxx),
 # run our checks against it on /repo, undo, store under /verif/seeded/Cxx.
+# optional first arg "-r N" selects round N (worktree /tmp/seedN-Cxx, outputs /tmp/seedN-out/Cxx, stored as seeded/Cxx-rN)
+R=""; if [ "$1" = "-r" ]; then R=$2; shift 2; fi
 ID=$1; shift
 CHECKS=${@:-$ID}
-WT=/tmp/seed-$ID; OUT=/tmp/seed-out/$ID
+WT=/tmp/seed$R-$ID; OUT=/tmp/seed$R-out/$ID
+STORE=$ID; [ -n "$R" ] && STORE=$ID-r$R
 export CARGO_NET_OFFLINE=true RUST_BACKTRACE=0
 cd $WT || exit 2
 DEMO=$(python3 -c "import json;print(json.load(open('$OUT/meta.json'))['demo_cmd'])")
@@ -31,12 +34,12 @@ for c in $CHECKS; do
   if [ $rc = 1 ]; then R=$(echo "$o" | grep -o 'replay=[^ ]*' | head -1 | cut -d= -f2); grep -m2 '^# verdict' $R | cut -c1-300; fi
 done
 git -C /repo checkout -- .
-mkdir -p /verif/seeded/$ID
-cp $OUT/patch.diff $OUT/meta.json /verif/seeded/$ID/; cp -r $OUT/demo /verif/seeded/$ID/ 2>/dev/null
+mkdir -p /verif/seeded/$STORE
+cp $OUT/patch.diff $OUT/meta.json /verif/seeded/$STORE/; cp -r $OUT/demo /verif/seeded/$STORE/ 2>/dev/null
 python3 - <<PY
 import json
-m=json.load(open('/verif/seeded/$ID/meta.json'))
+m=json.load(open('/verif/seeded/$STORE/meta.json'))
 m['confirmed_by_me']={'tests_with_patch':'$T1','demo_rc_with_patch':$D1,'demo_rc_without_patch':$D0,'checks_run':'$RES'.split()}
-json.dump(m,open('/verif/seeded/$ID/meta.json','w'),indent=1)
+json.dump(m,open('/verif/seeded/$STORE/meta.json','w'),indent=1)
 PY
-echo "stored /verif/seeded/$ID; results:$RES"
+echo "stored /verif/seeded/$STORE; results:$RES"
